@@ -384,6 +384,18 @@ func (e *SpecEnv) eval(x Expr) TV {
 		if body.Sort != "Bool" {
 			efail("quantifier body is not boolean")
 		}
+		pat := ""
+		if len(x.Pats) > 0 {
+			var ps []string
+			for _, pe := range x.Pats {
+				pv := n.eval(pe)
+				if pv.Loc != nil && pv.T == "" {
+					pv = n.locTerm(pv)
+				}
+				ps = append(ps, pv.T)
+			}
+			pat = " :pattern (" + strings.Join(ps, " ") + ")"
+		}
 		g := "true"
 		if len(guards) == 1 {
 			g = guards[0]
@@ -391,6 +403,12 @@ func (e *SpecEnv) eval(x Expr) TV {
 			g = "(and " + strings.Join(guards, " ") + ")"
 		}
 		if x.Forall {
+			if pat != "" {
+				if g == "true" {
+					return specTV(fmt.Sprintf("(forall (%s) (! %s%s))", strings.Join(binds, " "), body.T, pat), "Bool")
+				}
+				return specTV(fmt.Sprintf("(forall (%s) (! (=> %s %s)%s))", strings.Join(binds, " "), g, body.T, pat), "Bool")
+			}
 			if g == "true" {
 				return specTV(fmt.Sprintf("(forall (%s) %s)", strings.Join(binds, " "), body.T), "Bool")
 			}
@@ -908,6 +926,9 @@ func (c *Ctx) smtFuncSort(name string) (string, bool) {
 		}
 	}
 	switch name {
+	case "okey", "intr", "okey.v", "okey.t", "intr.r", "intr.f":
+		c.usesObjKey = true
+		return "Int", true
 	case "idx", "pow2", "go.div", "go.mod", "nl.div", "nl.mod", "nl.mul", "gs.len", "gs.at", "band8", "bor8", "bxor8", "bnot8", "shl8", "shr8", "val8", "bit.and", "bit.or", "bit.xor", "bit.andnot":
 		return "Int", true
 	case "gs.lt", "bit8", "bs.lt":
@@ -1028,7 +1049,14 @@ func (e *SpecEnv) call(x *ECall) TV {
 		} else if v.Sort == "Iface" {
 			ref = fmt.Sprintf("(i.val %s)", v.T)
 		}
-		return specTV(fmt.Sprintf("(<= %s %s)", ref, e.S.WM), "Bool")
+		return specTV(fmt.Sprintf("(and (<= 0 %s) (<= %s %s))", ref, ref, e.S.WM), "Bool")
+	case "wm0":
+		// wm0(): the allocation watermark of the pre-state (function entry; at a call site: just before the call)
+		wm := e.WM0
+		if wm == "" {
+			wm = "WM!0"
+		}
+		return specTV(wm, "Int")
 	case "freshkey":
 		// freshkey(k): the object identified by objkey value k did not exist at function entry (for the address of an
 		// embedded field: the enclosing object did not)
